@@ -586,6 +586,15 @@ struct DaemonScenario : Scenario {
         if (e.v == 'u') { for (int x = 0; x < conc; x++) { bool used = false; for (auto &f : inflight) if (f.chan == d.chan && f.delnum == x) used = true; if (!used) { dn = x; break; } } }
         std::string g; g.push_back((char) dn); g += "Kstray report\n"; g.push_back('\0'); rep[d.chan]->buf += g; w.counters["reports_stray"]++; history += std::string(" stray(") + std::to_string(dn) + ")"; return true;
       }
+      if (e.v == 'E') {
+        // the spawner of this delivery's channel dies: end-of-file on the report pipe, the command pipe loses its reader.  Its
+        // deliveries get no report at all; qmail-send must finish what is outstanding on the other channel and exit, and nothing may
+        // be marked.  For the oracles this is a stop request like TERM (the next incarnation retries the recipients)
+        int c0 = inflight[e.idx].chan; rep[c0]->writers = 0; cmd[c0]->readers = 0;
+        for (size_t i = inflight.size(); i-- > 0;) if (inflight[i].chan == c0) { Delivery d = inflight[i]; MsgState *m = find_msg(d.msg); RcptState *r = m ? find_rcpt(*m, d.recip, d.chan) : nullptr; if (r) r->inflight = false; inflight.erase(inflight.begin() + i); }
+        term_sent = true; for (auto &kv : ledger) for (int c = 0; c < 2; c++) if (kv.second.pass_started[c] && !kv.second.gone && !kv.second.pass_eof[c]) kv.second.term_open_pass[c] = true;
+        w.counters["spawner_lost"]++; history += std::string(" SPAWNER-LOST(") + (c0 ? "remote" : "local") + ")"; return true;
+      }
       if (e.v == 'O') { send_report(w, e.idx, 'Z', std::string(12000, 'x') + "\n"); w.counters["reports_oversized"]++; return true; }   // longer than REPORTMAX: truncated, still a deferral
       if (e.v == 'X' || e.v == 'e' || e.v == 'Q') { Delivery d = inflight[e.idx]; std::string g; g.push_back((char) d.delnum); g += e.v == 'X' ? "?garbled" : e.v == 'Q' ? "Qunknown status letter\n" : ""; g.push_back('\0'); inflight.erase(inflight.begin() + e.idx); rep[d.chan]->buf += g; MsgState *m = find_msg(d.msg); RcptState *r = m ? find_rcpt(*m, d.recip, d.chan) : nullptr; if (r) r->inflight = false; if (m) m->had_defer[d.chan] = true; w.counters["reports_garbage"]++; history += " " + d.recip + "=garbled"; }
       else if (e.v == 'F') send_report(w, e.idx, 'D', "user unknown\n\n<victim@a.com>:\nforged paragraph\n\n\n--- Below this line is a copy of the message.\n");   // hostile failure text
